@@ -5,7 +5,9 @@ SPEC = {
                  "text": "Theorems in coq/theories/ConfigLemmas.v for all schemas, states and values: a fresh configuration marks every declared key as default and exposes the declared default (callable defaults evaluated per build through a call counter); an accepted assignment is exactly `store`: the key becomes user-defined, reads back the stored value, no other key's value or mark changes, object identity kept (store_spec, set_value_ok); a rejected assignment changes nothing (set_value_err); reset restores default value and mark and touches nothing else (reset_spec). Tied to the code by comparing values and _default_value_keys of every (sub)configuration after every step of random histories, plus a direct oracle on is_value_defined semantics.",
                  "note": 'Trusted: Coq kernel + vm_compute; harness. Virtual and instance-method fields hold no value and are outside the model (finding F27 region). No axioms.',
                  "design_ref": "DESIGN.md section 6 C12"},
-    "streams": ['co12', 'defaults', 'configfields'],
+    "streams": ['co12', 'defaults', 'configfields', 'env'],
+    # of the environment stream (C14) the C12 clause: a loaded value makes the field user-defined / is not silently dropped
+    "stream_filters": {"env": r"^value: op \d+ \(load\)"},
     "witnesses": [],
     "rule": 'as C06, with reset-heavy histories; stream configfields: the same kinds of histories (set by attribute / dotted path / constructor keyword, load_tree, reset, validate, append / item assignment) over schemas whose leaves are ALL field classes of the field model Fields.v (strings with every option, ints / ports, floats, bools / flags, IPv4 address / network, host names, bytes, untyped and typed lists / dicts) mixed with nested schemas, config types and lists of configurations -- a fixed 19-field schema x ~330 curated single operations, a seed-chosen slice of ordered pairs, then random schemas; values from the boundary pools of the `fields` stream; compared with ConfigFields.v (run_configfields) after every step, with the property\'s own direct oracle',
     "trusted_base": [KERNEL, "Print Assumptions: closed under the global context (no axioms)", TIE, HARNESS,
